@@ -450,6 +450,42 @@ Definition sp_topic_scope (e : entity) : list bytes :=
   ++ flat_map (fun s => [sp_summary_name e s ++ bs "Message"; to_camel (sp_summary_name e s) ++ bs "Topic"])
               (e_summaries e).
 
+(* ---- the names of the three packages, split by who chose them ----------------------------------------------
+   GENERATED: the names the expansion derives from the entity name and the statuses (README: the six
+   schemas, the status values, the query service with its six messages, the publish topic and its message).
+   USER: the names the declaration itself puts into the same package scopes - block schemas and the values of
+   block enums; request / response messages of the command methods and the command services; the topics and
+   messages of the summaries.  The quantifier asks that the USER's names are pairwise distinct and differ
+   from the generated ones ([user_names_ok], a predicate on the declaration); that the GENERATED names never
+   collide among themselves is a theorem (EntityAcceptProofs: generated_main_nodup, generated_service_nodup,
+   generated_topic_nodup), so the distinctness of the whole scopes ([sp_main_scope] etc. = generated ++ user)
+   is derived, not assumed (main_scope_distinct, service_scope_distinct, topic_scope_distinct). *)
+Definition sp_main_generated (e : entity) : list bytes :=
+  [sp_name e "Keys"; sp_name e "Data"; sp_name e "Status"]
+  ++ sp_enum_values_n (sp_status_prefix e) (e_status e) (sp_first_number e)
+  ++ [sp_name e "State"; sp_name e "EventType"; sp_name e "Event"].
+Definition sp_main_user (e : entity) : list bytes := flat_map sp_schema_names (e_schemas e).
+Definition sp_service_generated (e : entity) : list bytes :=
+  let q := sp_query_prefix e in
+  [q ++ bs "GetRequest"; q ++ bs "GetResponse"; q ++ bs "ListRequest"; q ++ bs "ListResponse";
+   q ++ bs "EventsRequest"; q ++ bs "EventsResponse"; q ++ bs "QueryService"].
+Definition sp_service_user (e : entity) : list bytes :=
+  flat_map (fun c =>
+       flat_map (fun m => (md_name m ++ bs "Request")
+                          :: match md_response m with Some _ => [md_name m ++ bs "Response"] | None => [] end)
+                (c_methods c)
+       ++ [command_service e c]) (e_commands e).
+Definition sp_topic_generated (e : entity) : list bytes :=
+  [sp_camel e ++ bs "EventMessage"; to_camel (sp_camel e ++ bs "Publish") ++ bs "Topic"].
+Definition sp_topic_user (e : entity) : list bytes :=
+  flat_map (fun s => [sp_summary_name e s ++ bs "Message"; to_camel (sp_summary_name e s) ++ bs "Topic"])
+           (e_summaries e).
+Definition disjoint_bytes (a b : list bytes) : bool := forallb (fun x => negb (existsb (bytes_eqb x) b)) a.
+Definition user_names_ok (e : entity) : bool :=
+  nodup_bytes (sp_main_user e) && disjoint_bytes (sp_main_user e) (sp_main_generated e)
+  && nodup_bytes (sp_service_user e) && disjoint_bytes (sp_service_user e) (sp_service_generated e)
+  && nodup_bytes (sp_topic_user e) && disjoint_bytes (sp_topic_user e) (sp_topic_generated e).
+
 Definition in_quantifier (e : entity) : bool :=
   (* the options of one enum - the statuses, the options of an enum of the block or of an inline enum -
      are distinct names for protobuf: their canonical names (enum-name prefix removed, PascalCase, protoc's
@@ -480,9 +516,11 @@ Definition in_quantifier (e : entity) : bool :=
   (* schemas of the block: any identifier is a schema name (`enum level_type`: the compiler keeps it as written) *)
   && forallb (fun s => name_ok (schema_name s) && fields_wf (schema_fields s) && forallb (ref_ok e) (schema_fields s))
              (e_schemas e)
-  (* the type / value / service names of each of the three packages, as documented, are distinct:
-     the names the user chooses do not repeat each other or the entity's own component names *)
-  && nodup_bytes (sp_main_scope e) && nodup_bytes (sp_service_scope e) && nodup_bytes (sp_topic_scope e)
+  (* the names the USER puts into the three package scopes (block schemas and their enum values; method
+     request / response messages and command services; summary topics and messages) do not repeat each
+     other nor a name the expansion generates.  That the whole scopes are then duplicate-free is PROVED
+     (main_scope_distinct etc.): the generated names never collide among themselves *)
+  && user_names_ok e
   (* query settings: events in get, default status filters that name statuses (no list-request
      settings: they are not part of the quantifier, and the real compiler panics on them) *)
   && negb (list_settings e)
